@@ -297,3 +297,37 @@ def set_bond_length(atoms, res_index, a, b, length):
         v = by[b]["xyz"] - by[a]["xyz"]
         by[b]["xyz"] = by[a]["xyz"] + v / np.linalg.norm(v) * length
     return atoms
+
+
+def alt_names(resname, nterm=False, cterm=False):
+    """canonical atom name -> alternative spellings declared by the topology: the residue definition, plus the terminus
+    patch for the first / last residue of a chain"""
+    d = definitions()
+    out = {}
+    srcs = [getattr(d.map.get(resname), "altnames", {}) or {}]
+    pats = d.patches if isinstance(d.patches, dict) else {getattr(p, "name", ""): p for p in d.patches}
+    for pn, use in (("NTERM", nterm), ("CTERM", cterm)):
+        if use and pn in pats:
+            srcs.append(getattr(pats[pn], "altnames", {}) or {})
+    for src in srcs:
+        for alt, name in src.items():
+            out.setdefault(name, [])
+            if alt not in out[name]:
+                out[name].append(alt)
+    return out
+
+
+def respell(atoms, style=0, seqnames=None, only=None):
+    """write atoms under alternative spellings the topology declares (style picks among several; 0: first).
+    only: restrict to these canonical names"""
+    last = max((a["res_index"] for a in atoms if a.get("res_index") is not None), default=None)
+    out = []
+    for a in atoms:
+        ri = a.get("res_index")
+        rn = (seqnames[ri] if seqnames and ri is not None else a["resname"])
+        alts = alt_names(rn, nterm=(ri == 0), cterm=(ri == last)).get(a["name"], []) if ri is not None else []
+        b = dict(a)
+        if alts and (only is None or a["name"] in only):
+            b["name"] = alts[min(style, len(alts) - 1)]
+        out.append(b)
+    return out
